@@ -22,6 +22,7 @@ func init() {
 			{"C17.rehash-all", "every chunk of every batch is re-hashed", 5, c17RehashAll},
 			{"C17.errgroup", "workers under errgroup; success only through g.Wait()", 1, func(c *Ctx) { c.errgroupRule("VerifyIndex") }},
 			{"C17.cancel-not-success", "a cancelled verify-index never reports success", 1, func(c *Ctx) { c.doneIsErrorFor("VerifyIndex") }},
+			{"C17.errors-not-dropped", "no error of the operations this property depends on is dropped", 1, func(c *Ctx) { c.errorsNotDropped("C17") }},
 		},
 	})
 }
